@@ -110,6 +110,18 @@ CHECKS = {
         "'!' only on bool replacements. Bounds: <=12 options, <=9 aliases, <=10 lines.",
         "DESIGN.md 3/C11",
     ),
+    "C08": (
+        "exploration",
+        "metamorphic property-based testing: file with vs. without its default-marked entries, unchanged and AST-mutated trees, both policies (Hypothesis)",
+        "A configuration reached by a generated history is saved (F); F' drops the default-marked entries. Unchanged tree: loading F and F' "
+        "must agree after the load and after every generated edit under both policies, unmarked entries must come back as user values, "
+        "and the marker must sit exactly on the inferred entries. Mutated tree (default / condition / range / dependency / prompt / added "
+        "or removed option or choice member): policy kconfig must equal F', policy sdkconfig must keep valid stored defaults of visible "
+        "options, mismatches must be reported, promptless entries ignored. Metamorphic relations are the statement itself.",
+        "Trusted: the AST mutation keeps trees acyclic (conditions only over lower-ranked options); the report-set oracle is exact for "
+        "policy kconfig and a lower bound (roots) for policy sdkconfig. Policy 'interactive' is outside the quantifier. Bounds: <=13 options.",
+        "DESIGN.md 3/C08",
+    ),
 }
 
 NOT_YET = {}
